@@ -152,6 +152,8 @@ func cmp(got, want int) string {
 	return "created"
 }
 
+var clocks = []string{"constant", "steady-100ms", "stall-mid-cycle", "irregular", "backwards"}
+
 func varyingSuite() hlib.Suite {
 	return hlib.Suite{Name: "regular+random/time-varying-rate-sequences", Run: func(r *hlib.Rec) {
 		alpha := []int{0, 1, 3, 7, 10}
@@ -163,36 +165,61 @@ func varyingSuite() hlib.Suite {
 							if !r.Mine() {
 								continue
 							}
-							seq := []int{alpha[a], alpha[b], alpha[c]}
-							idx := -1
-							extra := []time.Duration{0, 50 * time.Millisecond, 99 * time.Millisecond}[(a+b+c)%3]
-							_, f, _ := api.NewDistribution(kind, time.Duration(n)*100*time.Millisecond+extra, func(time.Time) int { idx++; return seq[idx] }, func(k int) int { return k / 2 })
-							input := fmt.Sprintf("%s interval=%s (N=%d) rates=%v", kind, time.Duration(n)*100*time.Millisecond+extra, n, seq)
-							r.SampleCase(input)
-							for cyc := 0; cyc < 3; cyc++ {
-								r.Eval()
-								sum := 0
-								for i := 0; i < n; i++ {
-									v := f(now)
-									if v < 0 {
-										r.Fail("C12/varying-negative", "negative", fmt.Sprint(v), input)
+							for _, clock := range clocks {
+								seq := []int{alpha[a], alpha[b], alpha[c]}
+								idx := -1
+								extra := []time.Duration{0, 50 * time.Millisecond, 99 * time.Millisecond}[(a+b+c)%3]
+								interval := time.Duration(n)*100*time.Millisecond + extra
+								_, f, _ := api.NewDistribution(kind, interval, func(time.Time) int {
+									idx++
+									if idx >= len(seq) {
+										return 0 // more evaluations than cycles: reported below
 									}
-									sum += v
+									return seq[idx]
+								}, func(k int) int { return k / 2 })
+								input := fmt.Sprintf("%s interval=%s (N=%d) rates=%v timestamps=%s", kind, interval, n, seq, clock)
+								r.SampleCase(input)
+								ts, call := now, 0
+								for cyc := 0; cyc < 3; cyc++ {
+									r.Eval()
+									sum := 0
+									for i := 0; i < n; i++ {
+										// the timestamps handed to the function: a cycle is N calls, whatever the clock says
+										switch clock {
+										case "steady-100ms":
+											ts = ts.Add(100 * time.Millisecond)
+										case "stall-mid-cycle":
+											ts = ts.Add(100 * time.Millisecond)
+											if i == n/2 {
+												ts = ts.Add(3 * interval)
+											}
+										case "irregular":
+											ts = ts.Add([]time.Duration{time.Millisecond, 250 * time.Millisecond, 0, 2 * interval, 99 * time.Millisecond}[call%5])
+										case "backwards":
+											ts = ts.Add(-37 * time.Millisecond)
+										}
+										call++
+										v := f(ts)
+										if v < 0 {
+											r.Fail("C12/varying-negative", "negative", fmt.Sprint(v), input)
+										}
+										sum += v
+									}
+									if sum != seq[cyc] {
+										r.Fail("C12/varying-sum", cmp(sum, seq[cyc]), fmt.Sprintf("cycle %d sums to %d, want %d", cyc, sum, seq[cyc]), input)
+									}
+									if idx != cyc {
+										r.Fail("C12/varying-calls", "not-once-per-cycle", fmt.Sprintf("%d evaluations after %d cycles", idx+1, cyc+1), input)
+									}
 								}
-								if sum != seq[cyc] {
-									r.Fail("C12/varying-sum", cmp(sum, seq[cyc]), fmt.Sprintf("cycle %d sums to %d, want %d", cyc, sum, seq[cyc]), input)
-								}
-								if idx != cyc {
-									r.Fail("C12/varying-calls", "not-once-per-cycle", fmt.Sprintf("%d evaluations after %d cycles", idx+1, cyc+1), input)
-								}
+								r.Distinct(fmt.Sprintf("%s %d %v %s", kind, n, seq, clock))
 							}
-							r.Distinct(fmt.Sprintf("%s %d %v", kind, n, seq))
 						}
 					}
 				}
 			}
 		}
-		r.Sample(map[string]any{"kind": "regular,random", "N": []int{2, 3, 5, 10}, "rates": "all triples over {0,1,3,7,10}"})
+		r.Sample(map[string]any{"kind": "regular,random", "N": []int{2, 3, 5, 10}, "rates": "all triples over {0,1,3,7,10}", "timestamps": clocks})
 	}}
 }
 
